@@ -13,3 +13,4 @@ pub mod frontfault;
 pub mod der;
 pub mod names;
 pub mod uptrace;
+pub mod bytefault;
